@@ -433,6 +433,18 @@ def targeted(ctx, camp):
                     ctx.case(("targeted", name, workers, exc_kind, tuple(failing), max_errors, tuple(run.sched.decisions[:200])))
                     ctx.count("targeted_shape", name)
                     ctx.count("outcome", outcome[0])
+    # join-heavy shapes, no failures, more threads than predecessors, many aggressive schedules: the windows around the
+    # remaining-predecessor counter (decrement / zero test / put) are a few bytecodes wide
+    for name, nodes, edges in shapes:
+        if name not in ("fanin3", "double-join", "fanin2-parallel"):
+            continue
+        for si in range(ctx.n(60, 400)):
+            chooser = detsched.random_chooser(rng, rng.choice([0.3, 0.5, 0.7])) if si % 3 else \
+                detsched.pct_chooser(rng, depth=rng.choice([2, 4, 6]), horizon=rng.choice([200, 500]))
+            run, outcome = camp.one(nodes, edges, rng.choice([3, 4, 5]), 0, rng.choice(["cheap", "random", "default"]),
+                                    [], "Exception", chooser, "join-stress:" + name)
+            ctx.case(("join-stress", name, tuple(run.sched.decisions[:300])))
+            ctx.count("targeted_shape", name + "/stress")
 
 
 def file_findings(ctx, camp, props):
